@@ -153,6 +153,21 @@ def judge_names(spec, rec):
                 raise Violation('names/evaluator-%s' % k, 'evaluator(%r) metadata %s = %s, expression contains %s' % (
                     s, k, sorted(got2[k]), sorted(want[k])))
         rec.cls('names/evaluated')
+    # ... and once more with not-a-number flowing through the tree (one variable bound to NaN, infinities allowed so that
+    # inf - inf may arise): the reported names are those of the expression, whatever its value
+    if want['vars']:
+        vars_nan = dict(EV_VARS)
+        vars_nan[sorted(want['vars'])[len(s) % len(want['vars'])]] = float('nan')
+        kind, out = call(evaluator, s, vars_nan, EV_FUNCS, EV_SUFF, allow_inf=True)
+        rec.calls()
+        if kind == 'ok':
+            m = out[1]
+            got3 = {'vars': set(m.variables_used), 'funcs': set(m.functions_used), 'suffixes': set(m.suffixes_used)}
+            for k in ('vars', 'funcs', 'suffixes'):
+                if got3[k] != want[k]:
+                    raise Violation('names/evaluator-%s' % k, 'evaluator(%r) with a NaN-valued variable: metadata %s = %s, '
+                                    'expression contains %s' % (s, k, sorted(got3[k]), sorted(want[k])))
+            rec.cls('names/evaluated-with-nan')
     # evaluation failures (shape errors of random array expressions, '[1,2]||3', ...) are not C10's business:
     # the metadata is compared only when the evaluation succeeds; parse() above was compared in every case
     allnames = want['vars'] | want['funcs'] | want['suffixes']
